@@ -14,13 +14,13 @@ def classify(block, idx):
     return None
 
 
-def parse_known(run, name):
+def parse_drift(run, name):
     import re
     txt = open(os.path.join(run.out, name, "tlc.log")).read().replace("\n", " ")
-    m = re.findall(r'<<\s*"KNOWN",\s*<<(.*?)>>\s*>>', txt)
+    m = re.findall(r'<<\s*"DRIFT",\s*<<(.*?)>>\s*>>', txt)
     if not m or not m[-1].strip():
-        return set()
-    return set(int(x) for x in m[-1].split(","))
+        return []
+    return [int(x) for x in m[-1].split(",")]
 
 
 def run(run):
@@ -29,7 +29,7 @@ def run(run):
     p = os.path.join(out, "MC.cfg")
     with open(p, "w") as f:
         f.write("SPECIFICATION Spec\nCHECK_DEADLOCK FALSE\nCONSTANTS\n  GridN = 2\n  MaxLen = %d\n  Curves <- MCCurves\n  Tol2s <- MCTol2s\n"
-                "INVARIANT OutBounded\nINVARIANT ResultOK\nPROPERTY Terminates\n" % (4 if quick else 5))
+                "INVARIANT OutBounded\nINVARIANT ResultOK\nINVARIANT SimplePreserved\nPROPERTY Terminates\n" % (4 if quick else 5))
     r = run.tlc("mc_simplify", SPEC, "SimplifyMC", p, workers=12, timeout=3000,
                 extra=["-coverage", "1"] if not quick else None)
     run.coverage_zeros(r)
@@ -49,12 +49,16 @@ def run(run):
     with open(tcfg, "w") as f:
         f.write("SPECIFICATION TraceSpec\nINVARIANT Report\nCHECK_DEADLOCK FALSE\n")
     ntriv = set()
+    driftsum = 0
     for name, tr, exp in (("trace_replay", tr1, ncases), ("trace_random", tr2, nrand)):
         fails, lines = run.validate(name, SPEC, "SimplifyTrace", tcfg, tr, expected_cases=exp, timeout=3000)
-        known = parse_known(run, name)
+        dl = parse_drift(run, name)
+        driftsum += len(dl)
+        if dl and "r2_drift_sample" not in run.extra:
+            run.extra["r2_drift_sample"] = [json.loads(lines[dl[0] - 2]), json.loads(lines[dl[0] - 1])]
         for fl in fails:
             block, idx = run.case_block(lines, fl)
-            run.report_failure(block, idx, (lambda b, i, fl=fl: "C13-not-simple-documented-algorithm" if fl in known else None))
+            run.report_failure(block, idx, classify)
         hd = None
         for ln in lines:
             e = json.loads(ln)
@@ -66,6 +70,10 @@ def run(run):
                     ntriv.add(json.dumps([hd["curve"], hd["tol2"]]))
         if not run.samples:
             run.samples = [json.loads(x) for x in lines[2000:2004]] or [json.loads(x) for x in lines[:4]]
+    if driftsum:
+        run.drift.append("%d line-string results differ from the output of the R2 transcription (informational; the verdict "
+                         "rests on R1 only)" % driftsum)
+    run.extra["r2_drift_results"] = driftsum
     run.distinct_nontrivial = len(ntriv)
     run.rule = ("TLC enumerates every curve of <= L1 vertices on a 3x3 lattice, a thinned set of L2-vertex curves on a 4x4 lattice, "
                 "closed rings and two-member multi-line strings, x squared tolerances {0,3,7}; seeded random (mostly simple) walks of "
@@ -89,10 +97,9 @@ def replay(run, path):
     with open(tcfg, "w") as f:
         f.write("SPECIFICATION TraceSpec\nINVARIANT Report\nCHECK_DEADLOCK FALSE\n")
     fails, lines = run.validate("trace_replay", SPEC, "SimplifyTrace", tcfg, tr, expected_cases=1)
-    known = parse_known(run, "trace_replay")
     for fl in fails:
         block, idx = run.case_block(lines, fl)
-        run.report_failure(block, idx, (lambda b, i, fl=fl: "C13-not-simple-documented-algorithm" if fl in known else None))
+        run.report_failure(block, idx, classify)
     run.samples = [json.loads(x) for x in lines]
     run.distinct_nontrivial = 1
     run.rule = "replay of one recorded case"
